@@ -802,6 +802,10 @@ class Node:
             )
         if before is self:
             return  # already there
+        if new_parent is not self._parent:
+            for n in new_parent.children:
+                if n._data_id == self._data_id:
+                    raise UniqueConstraintError("Node.data already exists in parent")
 
         # NOTE: `list.remove()` checks for equality ('=='), not identity!
         del self._parent._children[Node.get_index(self)]  # type: ignore
